@@ -28,6 +28,12 @@ var migrationScratchTag = byte(db.Temporary)
 // original tag from byte 1 of the scratch key, prepend it to the rest, done.
 const scratchPrefixLen = 2
 
+// restagingMarkerKey lives in the scratch namespace under a tag no history
+// bucket has: it is present while a stager run refills the scratch space from
+// the cutoff although the resume token claims more (see runStager), and is
+// wiped with the namespace at the latest.
+var restagingMarkerKey = []byte{migrationScratchTag, 0xff}
+
 const blockNumberSuffixLen = 8
 
 // History-bucket key sizes. These mirror the production schema:
